@@ -5,10 +5,14 @@
 /// number of chunks of length n in a slice of length len: ceil(len / n)
 spec fn chunk_count(len: int, n: int) -> int { (len + n - 1) / n }
 
+/// the k-th chunk of length n of s: the items k*n .. (k+1)*n, cut off at the end of s
+spec fn chunk_of<T>(s: Seq<T>, n: int, k: int) -> Seq<T> {
+    s.subrange(k * n, if (k + 1) * n <= s.len() { (k + 1) * n } else { s.len() as int })
+}
+
 // rustdoc <[T]>::chunks: "Returns an iterator over chunk_size elements of the slice at a time, starting at the beginning of the
 // slice. The chunks are slices and do not overlap. If chunk_size does not divide the length of the slice, then the last chunk
 // will not have length chunk_size. ... Panics: Panics if chunk_size is zero."
-// (`Chunks::next` is a slice split: it always returns, hence `will_return_none()`; the item sequence is a function of the slice.)
 #[verifier::external_body]
 fn vx_chunks<'a, T>(s: &'a [T], n: usize) -> (r: impl Iterator<Item = &'a [T]>)
     requires
@@ -17,23 +21,46 @@ fn vx_chunks<'a, T>(s: &'a [T], n: usize) -> (r: impl Iterator<Item = &'a [T]>)
         r.obeys_prophetic_iter_laws(),
         r.decrease() is Some,
         r.remaining().len() == chunk_count(s@.len() as int, n as int),
-        forall|k: int| 0 <= k < r.remaining().len() ==>
-            (#[trigger] r.remaining()[k])@ == s@.subrange(k * n, if (k + 1) * n <= s@.len() { (k + 1) * n } else { s@.len() as int }),
+        forall|k: int| 0 <= k < r.remaining().len() ==> (#[trigger] r.remaining()[k])@ == chunk_of(s@, n as int, k),
 { s.chunks(n) }
+
+/// position i holds a maximum of s and every later item is smaller ("the last element" among the equally maximum ones)
+spec fn is_last_max_at<T: Ord>(s: Seq<&T>, i: int) -> bool {
+    &&& 0 <= i < s.len()
+    &&& forall|j: int| 0 <= j < s.len() ==> !(<T as vstd::std_specs::cmp::OrdSpec>::cmp_spec(#[trigger] s[j], s[i]) is Greater)
+    &&& forall|j: int| i < j < s.len() ==> <T as vstd::std_specs::cmp::OrdSpec>::cmp_spec(#[trigger] s[j], s[i]) is Less
+}
+
+/// rustdoc Iterator::max, over the item sequence s
+spec fn is_last_max<T: Ord>(s: Seq<&T>, r: Option<&T>) -> bool {
+    if s.len() == 0 { r is None } else { r is Some && exists|i: int| #[trigger] is_last_max_at(s, i) && r->0 == s[i] }
+}
 
 // rustdoc Iterator::max: "Returns the maximum element of an iterator. If several elements are equally maximum, the last element
 // is returned. If the iterator is empty, None is returned."
 // `max` consumes the whole iterator, so (as in vstd's contract of `Iterator::collect`) the prophesied item sequence
-// `remaining()` is complete: `will_return_none()`.  The order is the one of `Ord::cmp`, through vstd's `cmp_spec`.
+// `remaining()` is complete: `will_return_none()`.  The order is the one of `Ord::cmp`, which vstd describes by `cmp_spec`
+// for the types with `obeys_cmp_spec()`.
 #[verifier::external_body]
 fn vx_max<'a, T: Ord + 'a, I: Iterator<Item = &'a T>>(it: I) -> (r: Option<&'a T>)
     ensures
         it.obeys_prophetic_iter_laws() ==> it.will_return_none(),
-        it.obeys_prophetic_iter_laws() && it.remaining().len() == 0 ==> r is None,
-        it.obeys_prophetic_iter_laws() && it.remaining().len() > 0 && vstd::laws_cmp::obeys_cmp::<T>() ==> r is Some && exists|i: int| {
-            &&& 0 <= i < it.remaining().len()
-            &&& r->0 == #[trigger] it.remaining()[i]
-            &&& forall|j: int| 0 <= j < it.remaining().len() ==> !(<T as vstd::std_specs::cmp::OrdSpec>::cmp_spec(#[trigger] it.remaining()[j], it.remaining()[i]) is Greater)
-            &&& forall|j: int| i < j < it.remaining().len() ==> <T as vstd::std_specs::cmp::OrdSpec>::cmp_spec(#[trigger] it.remaining()[j], it.remaining()[i]) is Less
-        },
+        it.obeys_prophetic_iter_laws() && <T as vstd::std_specs::cmp::OrdSpec>::obeys_cmp_spec() ==> is_last_max(it.remaining(), r),
 { it.max() }
+
+// rustdoc Iterator::all: "Tests if every element of the iterator matches a predicate. all() takes a closure that returns true or
+// false. It applies this closure to each element of the iterator, and if they all return true, then so does all(). If any of
+// them return false, it returns false. all() is short-circuiting; in other words, it will stop processing as soon as it finds a
+// false ... An empty iterator returns true."
+// This is vstd's contract of `Iterator::all` (precondition, both result cases) plus one fact that vstd leaves out: the result
+// `true` means that the iterator was run until it returned None, so the prophesied item sequence is complete
+// (`will_return_none()`, as in vstd's contracts of `Iterator::next` returning None and of `Iterator::collect`).
+#[verifier::external_body]
+fn vx_all<I: Iterator, F: FnMut(I::Item) -> bool>(it: I, f: F) -> (r: bool)
+    requires
+        forall|k: int| 0 <= k < it.remaining().len() ==> #[trigger] f.requires((it.remaining()[k],)),
+    ensures
+        it.obeys_prophetic_iter_laws() && r ==> it.will_return_none()
+            && forall|i: int| #![trigger it.remaining()[i]] 0 <= i < it.remaining().len() ==> f.ensures((it.remaining()[i],), true),
+        it.obeys_prophetic_iter_laws() && !r ==> exists|i: int| #![trigger it.remaining()[i]] 0 <= i < it.remaining().len() && f.ensures((it.remaining()[i],), false),
+{ let mut it = it; it.all(f) }
